@@ -610,12 +610,31 @@ static const struct {
     const char *name;
     int32       nt, rank, dims[3];
     int         layout; /* 0 plain, 1 unlimited, 2 chunked, 3 deflate, 4 chunked+deflate, 5 rle, 6 empty (never written) */
-} TC_SDS[TC_NSDS + 4] = {
+} TC_SDS[TC_NSDS + 5] = {
     {"sds_i8", DFNT_INT8, 1, {40, 0, 0}, 0},   {"sds_i16", DFNT_INT16, 2, {20, 30, 0}, 0}, {"sds_f32", DFNT_FLOAT32, 3, {4, 10, 30}, 0},
     {"sds_f64", DFNT_FLOAT64, 2, {16, 20, 0}, 1}, {"sds_u8", DFNT_UINT8, 2, {50, 40, 0}, 0}, {"sds_i32", DFNT_INT32, 2, {25, 20, 0}, 6},
     /* layout variants used by file kind 1 */
     {"sds_chunked", DFNT_INT16, 2, {20, 30, 0}, 2}, {"sds_gzip", DFNT_INT32, 2, {30, 20, 0}, 3}, {"sds_chunk_gzip", DFNT_FLOAT32, 2, {24, 24, 0}, 4}, {"sds_rle", DFNT_UINT8, 2, {60, 50, 0}, 5},
+    /* an unsigned 16-bit data set with values above 32767 (file kinds 0 and 5) */
+    {"sds_u16", DFNT_UINT16, 2, {12, 15, 0}, 0},
 };
+/* the data sets of a file kind: position -> index into TC_SDS */
+static int
+tc_nsds(int kind)
+{
+    return kind == 0 ? TC_NSDS + 1 : kind == 1 ? 4 : kind == 5 ? 4 : (kind == 3 || kind == 4) ? 3 : 0;
+}
+static int
+tc_sds_index(int kind, int k)
+{
+    if (kind == 1)
+        return TC_NSDS + k;
+    if (kind == 0)
+        return k < TC_NSDS ? k : TC_NSDS + 4;
+    if (kind == 5)
+        return k < 3 ? k : TC_NSDS + 4;
+    return k;
+}
 
 static void
 tc_values(int32 nt, long n, void *out, int salt)
@@ -670,15 +689,16 @@ tc_generate(const char *path, int kind, tc_mut m)
     int want_sd = kind == 0 || kind == 1 || kind == 3 || kind == 4 || kind == 5;
     int want_gr = kind == 2 || kind == 5, want_v = kind == 3 || kind == 5, want_an = kind == 4 || kind == 5;
     remove(path);
-    int32 sdsref[TC_NSDS + 4];
+    int32 sdsref[TC_NSDS + 5];
     memset(sdsref, 0, sizeof sdsref);
-    int first = kind == 1 ? TC_NSDS : 0, last = kind == 1 ? TC_NSDS + 4 : (kind == 0 ? TC_NSDS : 3);
+    int first = tc_sds_index(kind, 0), npos = tc_nsds(kind);
     if (want_sd) {
         int32 S = SDstart(path, DFACC_CREATE);
         if (S == FAIL)
             return -1;
-        for (int k = first; k < last; k++) {
-            if (m.kind == 9 && m.obj == k - first)
+        for (int pos = 0; pos < npos; pos++) {
+            int k = tc_sds_index(kind, pos);
+            if (m.kind == 9 && m.obj == pos)
                 continue; /* removed object */
             int32 dm[3] = {TC_SDS[k].dims[0], TC_SDS[k].dims[1], TC_SDS[k].dims[2]}, st[3] = {0, 0, 0};
             int32 nt = TC_SDS[k].nt, rk = TC_SDS[k].rank;
@@ -712,7 +732,7 @@ tc_generate(const char *path, int kind, tc_mut m)
             }
             uint8 *v = calloc(1, (size_t)(ne * 8) + 8);
             tc_values(nt, ne, v, k + 1);
-            if (m.kind == 1 && m.obj == k - first)
+            if (m.kind == 1 && m.obj == pos)
                 tc_bump(nt, v, tc_pos(m.pos, ne));
             if (TC_SDS[k].layout != 6 && SDwritedata(s, st, NULL, dm, v) == FAIL)
                 return -1;
@@ -722,7 +742,7 @@ tc_generate(const char *path, int kind, tc_mut m)
             int32   cnt[3] = {7, 70000, -9};
             char    txt[32];
             snprintf(txt, sizeof txt, "units of %s", TC_SDS[k].name);
-            if (m.kind == 2 && m.obj == k - first) {
+            if (m.kind == 2 && m.obj == pos) {
                 if (m.pos == 0)
                     txt[3] ^= 0x01;
                 if (m.pos == 1)
@@ -747,7 +767,7 @@ tc_generate(const char *path, int kind, tc_mut m)
             if (TC_SDS[k].layout != 1) {
                 int16 sc[64];
                 tc_values(DFNT_INT16, dm[rk - 1], sc, 40 + k);
-                if (m.kind == 10 && m.obj == k - first)
+                if (m.kind == 10 && m.obj == pos)
                     tc_bump(DFNT_INT16, sc, tc_pos(m.pos, dm[rk - 1]));
                 SDsetdimscale(SDgetdimid(s, rk - 1), dm[rk - 1], DFNT_INT16, sc);
                 SDsetdimstrs(SDgetdimid(s, rk - 1), "axis", "m", "%d");
@@ -831,10 +851,11 @@ tc_generate(const char *path, int kind, tc_mut m)
             VSfdefine(vs, "id", DFNT_INT32, 1);
             VSfdefine(vs, "xyz", DFNT_FLOAT32, 3);
             VSfdefine(vs, "tag", DFNT_CHAR8, 4);
-            VSsetfields(vs, "id,xyz,tag");
+            VSfdefine(vs, "cnt", DFNT_UINT16, 1);
+            VSsetfields(vs, "id,xyz,tag,cnt");
             if (k == 1)
                 VSsetinterlace(vs, NO_INTERLACE); /* stored field by field; the buffer below is still record by record */
-            int   nrec = 5 + 20 * k, rsz = 4 + 12 + 4;
+            int   nrec = 5 + 20 * k, rsz = 4 + 12 + 4 + 2;
             uint8 *buf = calloc(1, (size_t)(nrec * rsz) + 8);
             for (int i = 0; i < nrec; i++) {
                 int32   id     = 1000 + i * 3 + k;
@@ -851,6 +872,8 @@ tc_generate(const char *path, int kind, tc_mut m)
                 memcpy(buf + i * rsz, &id, 4);
                 memcpy(buf + i * rsz + 4, xyz, 12);
                 memcpy(buf + i * rsz + 16, tg, 4);
+                uint16 cnt = (uint16)(30000 + i * 1500 + k); /* crosses 32767 */
+                memcpy(buf + i * rsz + 20, &cnt, 2);
             }
             VSwrite(vs, buf, nrec, FULL_INTERLACE);
             free(buf);
